@@ -50,6 +50,10 @@ pub fn judge(target: &str, data: &[u8]) -> Option<Verdict> {
         "total" => total_case(data).map(|s| c03::judge(&s)),
         "fmtdiff" => fmt_case(data).map(|s| c14::judge(&s)),
         "grammar" => grammar_case(data).map(|w| c01::judge_words(&w)),
+        "policy" => policy_case(data).map(|c| match crate::checks::c02::judge(&c) {
+            Verdict::Fail(m) => Verdict::Fail(format!("{m}\ncase: {}", crate::checks::c02::case_json(&c))),
+            o => o,
+        }),
         _ => None,
     }
 }
@@ -95,5 +99,188 @@ pub fn make_corpora(seed: u64) -> i32 {
         gr.push(t);
     }
     write("grammar", gr);
+    let pol: Vec<Vec<u8>> = crate::util::sample_values(seed, "corpus-policy-bytes", 0, 150, &proptest::collection::vec(proptest::prelude::any::<u8>(), 8..160));
+    write("policy", pol);
     0
+}
+
+// ---------------------------------------------------------------------------
+// structure-aware decoding: bytes -> (expression tree, file records) for the `policy` target
+
+struct Cur<'a> {
+    d: &'a [u8],
+    i: usize,
+}
+impl<'a> Cur<'a> {
+    fn u8(&mut self) -> u8 {
+        let v = self.d.get(self.i).copied().unwrap_or(0);
+        self.i += 1;
+        v
+    }
+    fn pick(&mut self, n: usize) -> usize {
+        (self.u8() as usize) % n.max(1)
+    }
+    fn u64(&mut self) -> u64 {
+        // boundary-rich: a table entry, a small number, or raw bytes
+        const T: [u64; 16] = [0, 1, 2, 59, 60, 61, 1023, 1024, 1025, (1 << 31) - 1, 1 << 31, (1 << 32) - 1, 1 << 32, (1 << 63) - 1, 1 << 63, u64::MAX];
+        match self.pick(4) {
+            0 => T[self.pick(16)],
+            1 => self.u8() as u64,
+            2 => T[self.pick(16)].wrapping_add(self.u8() as u64).wrapping_sub(2),
+            _ => {
+                let mut v = 0u64;
+                for _ in 0..8 {
+                    v = (v << 8) | self.u8() as u64;
+                }
+                v
+            }
+        }
+    }
+    fn u32(&mut self) -> u32 {
+        self.u64() as u32
+    }
+    fn cmp(&mut self) -> Cmp {
+        [Cmp::Eq, Cmp::Gt, Cmp::Lt][self.pick(3)]
+    }
+    fn name(&mut self) -> String {
+        crate::gen::NAME_POOL[self.pick(crate::gen::NAME_POOL.len())].to_string()
+    }
+    fn ident(&mut self) -> String {
+        ["a", "b", "c", "pool1", "ssd", "user.tag", "tag", "user", "v1", "x"][self.pick(10)].to_string()
+    }
+    fn fmt(&mut self) -> Vec<FEl> {
+        let fields = crate::gen::supported_fields();
+        let n = self.pick(6);
+        let mut out: Vec<FEl> = vec![];
+        for _ in 0..n {
+            match self.pick(4) {
+                0 => {
+                    let l = [",", ":", " ", "x", "~", "~a", "é", "#", "\"", "\\"][self.pick(8)].to_string();
+                    if !matches!(out.last(), Some(FEl::Lit(_))) {
+                        out.push(FEl::Lit(l));
+                    }
+                }
+                1 | 2 => out.push(FEl::F(fields[self.pick(fields.len())].clone())),
+                _ => {
+                    let e = match self.pick(12) {
+                        0 => Esc::Alarm,
+                        1 => Esc::Backspace,
+                        2 => Esc::Clear,
+                        3 => Esc::Form,
+                        4 => Esc::Newline,
+                        5 => Esc::CarriageReturn,
+                        6 => Esc::Tab,
+                        7 => Esc::VTab,
+                        8 => Esc::Null,
+                        9 => Esc::Backslash,
+                        _ => {
+                            let v = (self.u8() % 128) as u16;
+                            Esc::Ascii(if v == 0x1e { 0x1f } else { v })
+                        }
+                    };
+                    out.push(FEl::E(e));
+                }
+            }
+        }
+        if self.pick(2) == 0 {
+            out.push(FEl::E(Esc::Newline));
+        }
+        out
+    }
+    fn leaf(&mut self) -> E {
+        let f = ["a", "b", "c"];
+        match self.pick(30) {
+            0 => E::T(Tst::Time([Which::A, Which::C, Which::M][self.pick(3)], self.cmp(), self.u64(), TUnit::ALL[self.pick(4)])),
+            1 => E::T([Tst::Empty, Tst::Executable, Tst::Readable, Tst::Writable, Tst::True, Tst::False][self.pick(6)].clone()),
+            2 => E::T(Tst::Gid(self.cmp(), self.u32())),
+            3 => E::T(Tst::Uid(self.cmp(), self.u32())),
+            4 => E::T(Tst::Inum(self.cmp(), self.u32())),
+            5 => E::T(Tst::MirrorCount(self.cmp(), self.u32())),
+            6 => E::T(Tst::StripeCount(self.cmp(), self.u32())),
+            7 => E::T(Tst::Links(self.cmp(), self.u64())),
+            8 | 9 => E::T(Tst::Name(self.name())),
+            10 | 11 => E::T(Tst::IName(self.name())),
+            12 => E::T(Tst::Path(self.name())),
+            13 => E::T(Tst::IPath(self.name())),
+            14 => E::T(Tst::Pool(self.ident())),
+            15 => E::T(Tst::Xattr(self.ident())),
+            16 => E::T(Tst::XattrMatch(self.ident(), if self.pick(2) == 0 { self.ident() } else { self.name() })),
+            17 | 18 => {
+                let u = SUnit::ALL[self.pick(7)];
+                let max = u64::MAX / u.bytes();
+                let raw = self.u64();
+                let n = if max == u64::MAX { raw } else { raw % (max + 1) };
+                E::T(Tst::Size(self.cmp(), n, u))
+            }
+            19 => {
+                let n = 1 + self.pick(3);
+                E::T(Tst::Type((0..n).map(|_| FT::ALL[self.pick(7)]).collect()))
+            }
+            20 | 21 => E::T(Tst::Perm([PKind::Equal, PKind::AtLeast, PKind::Any][self.pick(3)], self.u32() & 0o7777)),
+            22 => E::A(Act::Print),
+            23 => E::A(Act::Print0),
+            24 | 25 => E::A(Act::Printf(self.fmt())),
+            26 => E::A(Act::FPrint(f[self.pick(3)].into())),
+            27 => E::A(Act::FPrint0(f[self.pick(3)].into())),
+            28 => E::A(Act::FPrintf(f[self.pick(3)].into(), self.fmt())),
+            _ => E::A(if self.pick(2) == 0 { Act::Quit } else { Act::PrintFid }),
+        }
+    }
+    fn tree(&mut self, depth: usize) -> E {
+        if depth == 0 || self.i >= self.d.len() {
+            return self.leaf();
+        }
+        match self.pick(8) {
+            0 => E::not(self.tree(depth - 1)),
+            1 | 2 => E::and(self.tree(depth - 1), self.tree(depth - 1)),
+            3 => E::or(self.tree(depth - 1), self.tree(depth - 1)),
+            4 => E::list(self.tree(depth - 1), self.tree(depth - 1)),
+            _ => self.leaf(),
+        }
+    }
+    fn file(&mut self) -> crate::files::FileRec {
+        let now = crate::files::PLACEHOLDER_NOW;
+        let mut f = crate::files::FileRec::base(now);
+        f.rel_path = ["a", "foo", "Foo", "dir/sub/x", "a.c", "a.C", "dir/foo", "МОСКВА", "москва", "123", "x.7", "data.bin"][self.pick(12)].to_string();
+        f.mode = FT::ALL[self.pick(7)].bits() | (self.u32() & 0o7777);
+        f.uid = self.u32();
+        f.gid = self.u32();
+        f.ino = self.u64();
+        f.nlink = self.u64();
+        f.size = self.u64();
+        f.blocks = self.u64() >> 12;
+        f.atime = now.saturating_sub(self.u64() % 4_000_000);
+        f.ctime = now.saturating_sub(self.u64() % 4_000_000_000);
+        f.mtime = now.saturating_sub(self.u64() % 100_000);
+        f.projid = self.u32() % 1000;
+        f.stripe_count = self.u32() % 8;
+        f.mirror_count = self.u32() % 4;
+        f.pools = (0..self.pick(3)).map(|_| self.ident()).collect();
+        let n = self.pick(3);
+        let mut seen = std::collections::HashSet::new();
+        f.xattrs = (0..n).map(|_| (self.ident(), self.ident())).filter(|x| seen.insert(x.0.clone())).collect();
+        f.empty = self.pick(2) == 0;
+        f.readable = self.pick(2) == 0;
+        f.writable = self.pick(2) == 0;
+        f.executable = self.pick(2) == 0;
+        f
+    }
+}
+
+pub fn policy_case(data: &[u8]) -> Option<crate::checks::c02::Case> {
+    if data.len() < 4 || data.len() > 600 {
+        return None;
+    }
+    let mut c = Cur { d: data, i: 0 };
+    let threads = match c.pick(4) {
+        0 => Some(c.u32()),
+        _ => None,
+    };
+    let via_text = c.pick(5) == 0;
+    let tree = c.tree(5);
+    if tree.node_count() > 40 {
+        return None;
+    }
+    let files = (0..2 + c.pick(3)).map(|_| c.file()).collect();
+    Some(crate::checks::c02::Case { tree, files, threads, via_text })
 }
